@@ -75,8 +75,8 @@ claimed = {
    technique=DED+" with a ghost effect model for the OS", design="3 (C20), 6"),
 }
 BOUNDED = {
- "C08": "936 k paragraphs / documents through three write-read cycles and the encoder; no blank line inside a paragraph, identity up to one trailing newline, no growth",
- "C19": "85 k build-dependency graphs rendered as .dsc text (alternatives, arch restrictions, substvars, three fields, folded Binary lists); permutation, edges respected, error iff cycle, deterministic",
+ "C08": "1.8 M paragraphs / documents (every line sequence of length 1..4 over six line kinds, now INCLUDING values that start with empty lines; values with '#' lines; mixed Encoder call sequences) through three write-read cycles and the encoder; no blank line inside a paragraph, identity up to one trailing newline, no growth, same number of paragraphs",
+ "C19": "121 k build-dependency graphs rendered as .dsc text (alternatives, arch restrictions, substvars, three fields, folded Binary lists, name families whose concatenations collide); permutation, edges respected, error iff cycle, deterministic. Beside it, the two things the order is computed from ARE under contract and discharged on every run (144 obligations): the selection of the first applicable alternative per relation (GetPossibilities, proved for C06) and the Debian layout of the DSC fields (static TAG obligations); OrderDSCForBuild itself and pault.ag/go/topsort are not",
 }
 for pid, what in BOUNDED.items():
     claimed[pid] = dict(category="exploration",
